@@ -128,6 +128,9 @@ func generate(o *Options) *runResult {
 		return res
 	}
 	res.prog = prog
+	if ef := loadExpected(filepath.Join(o.Verif, "expected", o.Prop+".json")); ef != nil {
+		prog.nameHints = ef.Names
+	}
 	for _, c := range targets {
 		fn := prog.funcs[c.Full]
 		if fn == nil {
